@@ -282,6 +282,7 @@ def run(argv):
                 chk.traces += 1
     late_override_check(chk, models)
     constants_check(chk)
+    instance_override_check(chk)
     grain_density_check(chk)
     # user overrides given on the command line (project with an element-replacement table, ices of replaced elements): the
     # rendered rate constants must be those of the API rendering with the same tables
@@ -371,6 +372,42 @@ def grain_density_check(chk):
                           f"`gdens = {m.group(1).strip()}` is not the total density of the grain species {grains_truth}: every rate that "
                           f"scales with the grain density (accretion, recombination on grains, surface reactions) is off by the missing "
                           f"fraction", input={"model": model, "reactions": lines[:3], "grain_species": grains_truth})
+
+
+def instance_override_check(chk):
+    """A binding energy may also be set on a species object (`Species.binding_energy = …`).  The rate of a desorption reaction uses the
+    binding energy of the species that desorbs, i.e. of that reaction's own reactant: when it is set on the reacting species of the
+    desorption reactions, the `eb_<alias>` constant those rates refer to carries that value."""
+    import re
+    from naunet.network import Network
+    from naunet.species import Species
+    from .rendering import render
+    text = ("CO,FREEZE,NAN,#CO,NAN,NAN,NAN,1.0,0.0,0.0,0.0,10000.0\n#CO,THERM,NAN,CO,NAN,NAN,NAN,1.0,0.0,0.0,0.0,10000.0\n"
+            "#CO,DESCR,NAN,CO,NAN,NAN,NAN,1.0,0.0,0.0,0.0,10000.0\nH,H,NAN,H2,NAN,NAN,NAN,1.0e-17,0.0,0.0,0.0,10000.0\n")
+    f = chk.scratch / "instance.ucl"
+    f.write_text(text)
+    for model in ("hh93", "rr07x"):
+        try:
+            with silenced():
+                Species.reset()
+                net = Network(filelist=[str(f)], fileformats=["uclchem"], grain_model=model)
+                for r in net.reaction_list:
+                    for sp in r.reactants:
+                        if sp.name == "#CO":
+                            sp.binding_energy = 1500.0
+                path = chk.scratch / f"instance-{model}"
+                render(net, "dense", path)
+        except Exception as e:
+            chk.hist["instance-override-refused:" + type(e).__name__] += 1
+            continue
+        txt = (path / "src" / "naunet_constants.cpp").read_text()
+        got = {m.group(1): float(m.group(2)) for m in re.finditer(r"double eb_(\w+)\s*=\s*([-+0-9.eE]+);", txt)}
+        chk.count(("instance-override", model), nontrivial=True)
+        chk.hist["instance-override"] += 1
+        if got.get("GCOI") != 1500.0:
+            chk.violation({"kind": "binding-energy-constant", "route": "instance", "model": model},
+                          f"{model}: the binding energy 1500 K was set on the #CO that desorbs (reactant of the thermal and cosmic-ray desorption "
+                          f"reactions); the constant their rates use is eb_GCOI = {got.get('GCOI')}", input=text.split(chr(10))[:3])
 
 
 def constants_check(chk):
